@@ -84,22 +84,39 @@ def rule_prov(ctx) -> RuleResult:
                          f"the offset added to each input's cells comes from `{unparse(s)[:50]}` (a cell-value source) instead of the input's vertex "
                          "count: an input with a vertex above its highest referenced one shifts every following input's cells onto wrong vertices")
     md = p.func("BaseMerger.merge_data")
-    counters = {}
+    # the running offsets: the dict initialised with the association names
+    cdict = None
     for n in ast.walk(md.node):
-        if isinstance(n, ast.AugAssign) and isinstance(n.target, ast.Subscript) and isinstance(n.target.slice, ast.Constant):
-            counters.setdefault(n.target.slice.value, []).append(n)
+        if cdict is None and isinstance(n, ast.Assign) and isinstance(n.value, ast.Dict) and {getattr(k, "value", None) for k in n.value.keys} == {"VERTEX", "CELL"} \
+                and isinstance(n.targets[0], ast.Name):
+            cdict = n.targets[0].id
+    if cdict is None:
+        raise AnalysisError("BaseMerger.merge_data: running-offset dictionary {'VERTEX': 0, 'CELL': 0} not found")
     want = {"VERTEX": "n_vertices", "CELL": "n_cells"}
-    for k, attr in want.items():
-        if k not in counters:
-            raise AnalysisError(f"BaseMerger.merge_data: running offset for {k} not found")
-        for n in counters[k]:
-            leaves = [lf for lf in _leaves(n.value)]
-            attrs = {lf.rsplit(".", 1)[-1] for lf in leaves if "." in lf}
-            ok = attrs == {attr} and isinstance(n.op, ast.Add)
-            res.inst(f"merge_data: offset[{k!r}] += {unparse(n.value)[:60]}", nontrivial=True, ok=ok)
-            if not ok:
-                res.find("BaseMerger", "merge_data", f"{k} offset accumulates {sorted(attrs)}", f"{md.module.relpath}:{n.lineno}",
-                         f"the running {k} offset must advance by the input's {attr}; otherwise the next input's values land on the wrong rows")
+    outer = next((n for n in ast.walk(md.node) if isinstance(n, ast.For) and isinstance(n.target, ast.Name)), None)
+    ent = outer.target.id if outer is not None else "input_entity"
+    updates = [n for n in ast.walk(md.node) if isinstance(n, (ast.AugAssign, ast.Assign))
+               and any(isinstance(t, ast.Subscript) and unparse(t.value) == cdict for t in (n.targets if isinstance(n, ast.Assign) else [n.target]))]
+    if not updates:
+        raise AnalysisError("BaseMerger.merge_data: no update of the running offsets found")
+    seen_keys = set()
+    for n in updates:
+        tg = n.targets[0] if isinstance(n, ast.Assign) else n.target
+        k = tg.slice.value if isinstance(tg.slice, ast.Constant) else None
+        leaves = [lf for lf in _leaves(n.value) if lf != unparse(tg)]
+        attrs = {lf.rsplit(".", 1)[-1] for lf in leaves if "." in lf}
+        owners = {lf.rsplit(".", 1)[0] for lf in leaves if "." in lf}
+        additive = isinstance(n, ast.AugAssign) and isinstance(n.op, ast.Add)
+        ok = k in want and attrs == {want[k]} and owners == {ent} and additive
+        seen_keys.add(k)
+        res.inst(f"merge_data: offset[{k!r}] += {unparse(n.value)[:60]}", nontrivial=True, ok=ok)
+        if not ok:
+            res.find("BaseMerger", "merge_data", f"{k or unparse(tg.slice)} offset accumulates {sorted(attrs) or unparse(n.value)[:30]}", f"{md.module.relpath}:{n.lineno}",
+                     f"the running offsets must advance by the input object's own element counts ({ent}.n_vertices / {ent}.n_cells), once per input: "
+                     "counts taken from the data (or nothing, when an input has no such data) put the next input's values on the wrong rows")
+    for k in want:
+        if k not in seen_keys and not any(f.member == "merge_data" for f in res.findings):
+            res.find("BaseMerger", "merge_data", f"the {k} offset is never advanced", md.where, f"every input's {k} data is written at offset 0")
     # slice end = start + n_values
     tup = [n for n in ast.walk(md.node) if isinstance(n, ast.Assign) and isinstance(n.targets[0], ast.Tuple) and [unparse(t) for t in n.targets[0].elts] == ["start", "end"]]
     if not tup:
@@ -118,6 +135,23 @@ def rule_prov(ctx) -> RuleResult:
     res.inst("merge_data: the offset is selected by the data's own association", ok=ok)
     if not ok:
         res.find("BaseMerger", "merge_data", "association selector changed", md.where, "vertex data may be placed with the cell offset or vice versa")
+    # DrapeModelMerger.merge_data: the ghost re-indexing visits every child of the output exactly once
+    dm = p.func("DrapeModelMerger.merge_data")
+    reidx = [n for n in ast.walk(dm.node) if isinstance(n, ast.Assign) and isinstance(n.targets[0], ast.Attribute) and n.targets[0].attr == "values"
+             and isinstance(n.value, ast.Subscript) and unparse(n.value.value) == unparse(n.targets[0])]
+    if not reidx:
+        raise AnalysisError("DrapeModelMerger.merge_data: `data.values = data.values[<index map>]` not found")
+    out_name = dm.params[1] if len(dm.params) > 1 else "out_entity"
+    for a in reidx:
+        var = unparse(a.targets[0].value)
+        loops = [n for n in ast.walk(dm.node) if isinstance(n, ast.For) and any(x is a for x in ast.walk(n))]
+        ok = any(isinstance(lp.target, ast.Name) and lp.target.id == var and unparse(lp.iter) == f"{out_name}.children" for lp in loops)
+        res.inst(f"DrapeModelMerger.merge_data: re-indexing of `{var}.values` runs over {out_name}.children", nontrivial=True, ok=ok)
+        if not ok:
+            res.find("DrapeModelMerger", "merge_data", f"the re-indexed data `{var}` is not the loop variable of `for {var} in {out_name}.children`",
+                     f"{dm.module.relpath}:{a.lineno}",
+                     "data looked up by name (names are not unique) are visited twice or never: same-named data of different types keep the "
+                     "un-reordered values or are reordered twice")
     return res
 
 
